@@ -273,6 +273,38 @@ def bigOf (ee wire : Ty) : Option Big :=
   | .prim .int, .prim .nat => some .natAsInt
   | _, _ => none
 
+/-- the elements of a vector on the generic path: `Compound` in `Style::Vector`, `add_cost(3)` and the element's own
+entry point per element; the flags are cleared when the compound is dropped -/
+def genericElem (rec : RTy → Flags → Ty → Ty → St → NR) (t : RTy) (wire ee : Ty) (f : Flags) (s : St) : NR :=
+  (addCost s 3).bind fun _ s' => rec t f wire ee s'
+
+def genericElems (rec : RTy → Flags → Ty → Ty → St → NR) (vis : SeqVisitor) (t : RTy) (fl : Flags) (wire ee : Ty)
+    (n : Nat) (s2 : St) : R (List Val × Flags) :=
+  (runSeq vis (genericElem rec t wire ee) n fl s2).map fun (vs, _) => (vs, Flags.clear)
+
+/-- … under the big-number shortcut: the cost of all elements up front, no check per element -/
+def bigElems (rec : RTy → Flags → Ty → Ty → St → NR) (vis : SeqVisitor) (t : RTy) (fl : Flags) (b : Big) (wire ee : Ty)
+    (n : Nat) (s2 : St) : R (List Val × Flags) :=
+  if n * 3 > usizeMax then .err .other else
+  (addCost s2 (n * 3)).bind fun _ s3 =>
+    (runSeq vis (fun f s => rec t f wire ee s) n { fl with big := some b } s3).map fun (vs, _) => (vs, Flags.clear)
+
+def bulkElem (p : Prim) (f : Flags) (s : St) : NR := withFlags f (rd (decPrim p) s)
+
+/-- … of identical primitive type on both sides: the bulk reader (`PrimitiveVecAccess`) -/
+def bulkElems (renv : REnv) (vis : SeqVisitor) (t : RTy) (fl : Flags) (p : Prim) (n : Nat) (s2 : St) : R (List Val × Flags) :=
+  let size := (primSize p).getD 1
+  if n * (3 + size) > usizeMax then .err .other else
+  (addCost s2 (n * (3 + size))).bind fun _ s3 =>
+    if n * size > s3.input.length then .err .eof
+    else
+      match acceptsPrimitive renv (renv.length + 1) t p with
+      | some true => runSeq vis (bulkElem p) n fl s3
+      | some false =>
+        -- the element visitor rejects the primitive (an error at the first element it is offered)
+        runSeq vis (fun _ _ => .err .other) n fl s3
+      | none => .err .limit
+
 /-- `deserialize_seq`, vector branch; `guard`, `unroll` and `add_cost(1)` were done by the caller -/
 def nVecCase (env : Env) (renv : REnv) (fuel : Nat) (rec : RTy → Flags → Ty → Ty → St → NR) (vis : SeqVisitor)
     (t : RTy) (fl : Flags) (ww ee : Ty) (s1 : St) : R (List Val × Flags) :=
@@ -281,26 +313,11 @@ def nVecCase (env : Env) (renv : REnv) (fuel : Nat) (rec : RTy → Flags → Ty 
   | some wire =>
     (rd readLenDe s1).bind fun n s2 =>
       match exactPrim ee wire with
-      | some p =>
-        let size := (primSize p).getD 1
-        if n * (3 + size) > usizeMax then .err .other else
-        (addCost s2 (n * (3 + size))).bind fun _ s3 =>
-          if n * size > s3.input.length then .err .eof
-          else
-            match acceptsPrimitive renv (renv.length + 1) t p with
-            | some true => runSeq vis (fun f s => withFlags f (rd (decPrim p) s)) n fl s3
-            | some false =>
-              -- the element visitor rejects the primitive (an error at the first element it is offered)
-              runSeq vis (fun _ _ => .err .other) n fl s3
-            | none => .err .limit
+      | some p => bulkElems renv vis t fl p n s2
       | none =>
         match bigOf ee wire with
-        | some b =>
-          if n * 3 > usizeMax then .err .other else
-          (addCost s2 (n * 3)).bind fun _ s3 =>
-            (runSeq vis (fun f s => rec t f wire ee s) n { fl with big := some b } s3).map fun (vs, _) => (vs, Flags.clear)
-        | none =>
-          (runSeq vis (fun f s => (addCost s 3).bind fun _ s' => rec t f wire ee s') n fl s2).map fun (vs, _) => (vs, Flags.clear)
+        | some b => bigElems rec vis t fl b wire ee n s2
+        | none => genericElems rec vis t fl wire ee n s2
 
 /-- `Type::is_tuple` -/
 def isTupleFields (fs : List (Label × Ty)) : Bool :=
